@@ -271,4 +271,7 @@ pub mod verif_hooks {
         let t = [QS_FBSIZES, MPQS_FBSIZES, CLASSGROUP_FBSIZES][table];
         select_fb_size(bitsize, use_double, t)
     }
+    pub fn vh_stage2_table() -> &'static [(f64, u64, u64)] {
+        STAGE2_PARAMS
+    }
 }
